@@ -1,0 +1,16 @@
+//go:build verif
+
+// Package simhook provides yield points for the deterministic simulation
+// harness. Without the build tag "verif" every call compiles to nothing.
+package simhook
+
+// Hook, when set, is called at every yield point with the name of the site.
+var Hook func(site string)
+
+// Yield marks a point where the simulation may interleave another goroutine.
+// It must never be called while a mutex is held.
+func Yield(site string) {
+	if Hook != nil {
+		Hook(site)
+	}
+}
